@@ -3,8 +3,9 @@
 // overload families built from textual pattern descriptions.  One output line per input line.
 //
 //   case <id>                         -> "case <id>"   (registry reset, family cleared)
-//   ov <label> <param>* -> <out>      -> "ok <base-rank>"          declare one overload
-//        param = ts:<tp> | sc:<sp> ;  out = <tp> | -
+//   ov <label> <param>* -> <out> [kw] -> "ok <base-rank>"          declare one overload
+//        param = ts:<tp> | sc:<sp> ;  out = <tp> | - ;  kw = kw:* (un-annotated **kwargs collector)
+//        | kw:<tp> (collector with a declared pack pattern); no call ever supplies a keyword
 //   perm <label>*                     -> "ok"          register the named overloads, in this order,
 //                                                      under a fresh private operator name
 //   call <arg>*                       -> "solo <l>=ok:<rank>|rej ... ## <perm0 result> ## <perm1 result> ..."
@@ -352,6 +353,9 @@ namespace
         std::vector<ParamPattern> params;
         bool                      has_output{false};
         TypePattern               output{};
+        bool                      has_kwargs{false};
+        bool                      has_kwargs_pattern{false};
+        TypePattern               kwargs_pattern{};
     };
 
     OperatorImpl make_impl(const OverloadSpec &spec, const std::string &op_name)
@@ -362,6 +366,9 @@ namespace
         impl.params     = spec.params;
         impl.has_output = spec.has_output;
         impl.output     = spec.output;
+        impl.has_kwargs         = spec.has_kwargs;
+        impl.has_kwargs_pattern = spec.has_kwargs_pattern;
+        impl.kwargs_pattern     = spec.kwargs_pattern;
         // exactly what make_operator_impl does for a C++ candidate
         impl.rank = operator_dispatch_detail::operator_rank(impl.params);
         return impl;
@@ -500,23 +507,31 @@ int main()
                     else { throw ParseError("bad param " + w[i]); }
                     spec.params.push_back(std::move(p));
                 }
-                if (i + 2 != w.size()) { throw ParseError("expected '-> out'"); }
+                if (i + 2 != w.size() && i + 3 != w.size()) { throw ParseError("expected '-> out [kw]'"); }
                 if (w[i + 1] != "-")
                 {
                     spec.has_output = true;
                     spec.output     = parse_tp(w[i + 1]);
                 }
+                if (i + 3 == w.size())
+                {
+                    if (w[i + 2].rfind("kw:", 0) != 0) { throw ParseError("bad kw " + w[i + 2]); }
+                    spec.has_kwargs = true;
+                    if (w[i + 2] != "kw:*")
+                    {
+                        spec.has_kwargs_pattern = true;
+                        spec.kwargs_pattern     = parse_tp(w[i + 2].substr(3));
+                    }
+                }
                 for (const auto &o : family)
                 {
                     if (o.label == spec.label) { throw ParseError("duplicate label"); }
                 }
-                // the solo registration: this overload alone under its own private name
-                OperatorImpl solo = make_impl(spec, "hgv.c19.solo." + std::to_string(serial) + "." + spec.label);
-                const int    rank = solo.rank;
+                const int rank = operator_dispatch_detail::operator_rank(spec.params);
                 family.push_back(std::move(spec));
                 std::cout << "ok " << rank << "\n";
             }
-            else if (op == "perm")
+            else if (op == "perm" && w.size() >= 2)
             {
                 std::string name = "hgv.c19." + case_id + "." + std::to_string(serial++);
                 std::vector<const OverloadSpec *> chosen;
